@@ -1806,3 +1806,22 @@ func funcTableEntries(p *Program, g *ssa.Global) map[string]*ssa.Function {
 	}
 	return out
 }
+
+// funcDeclOf: the declaration of a function or method of the module.
+func funcDeclOf(p *Program, fobj *types.Func) *ast.FuncDecl {
+	if fobj == nil || fobj.Pkg() == nil {
+		return nil
+	}
+	pk := p.ByPath[fobj.Pkg().Path()]
+	if pk == nil {
+		return nil
+	}
+	for _, f := range pk.Syntax {
+		for _, d := range f.Decls {
+			if fd, ok := d.(*ast.FuncDecl); ok && pk.TypesInfo.Defs[fd.Name] == types.Object(fobj) {
+				return fd
+			}
+		}
+	}
+	return nil
+}
